@@ -4,6 +4,7 @@ that existed before denotes what it denoted before.
 -/
 import Ajson.Proofs.Refine
 import Ajson.Proofs.CloneSound
+import Ajson.Proofs.Steps
 namespace Ajson.Proofs
 open Ajson Ajson.Heap
 
